@@ -41,7 +41,8 @@ FloatsFull == FloatsQuick \cup {FNegMinSub, FMinNorm, FMinusOneHalf, FTwo, FThre
 
 Sa == <<97>>   Sb == <<98>>   Sab == <<97, 98>>   SAuml == <<228>>   SZ == <<90>>   SEmoji == <<128512>>
 SMixed == <<32, 228, 98, 9>>          \* " äb\t": whitespace around a multi-byte character
-StringsQuick == {<<>>, Sa, Sab, SAuml, SMixed}
+SWide == <<12288, 97, 160>>            \* U+3000 a U+00A0: multi-byte whitespace at BOTH ends (character counts are not byte offsets)
+StringsQuick == {<<>>, Sa, Sab, SAuml, SMixed, SWide}
 StringsFull == StringsQuick \cup {Sb, SZ, SEmoji, <<97, 228, 128512, 98>>, <<34, 92>>, <<223>>}
 
 Ints == IF PoolName = "quick" THEN IntsQuick ELSE IntsFull
